@@ -302,3 +302,32 @@ func (b *box) GoodDeferCallAfterDeferredUnlock() {
 	defer b.bump() // runs first, with other held; then other is released
 	_ = b.cb
 }
+
+// entry requirements are inferred for unexported helpers all of whose callers are visible
+
+func (b *box) peekLocked() int { return b.val } // read access: any mode will do
+
+func (b *box) GoodReadHelperUnderRLock() int {
+	b.mu.RLock()
+	defer b.mu.RUnlock()
+
+	return b.peekLocked()
+}
+
+func (b *box) GoodHelperChain() {
+	b.mu.Lock()
+	b.outerLocked()
+	b.mu.Unlock()
+}
+
+func (b *box) outerLocked() { b.bumpLocked() } // needs mu for writing because its callee does
+
+func (b *box) BadWriteHelperUnderRLock() {
+	b.mu.RLock()
+	b.bumpLocked() // writes under a read lock
+	b.mu.RUnlock()
+}
+
+func (b *box) BadHelperChainWithout() {
+	b.outerLocked()
+}
